@@ -39,6 +39,7 @@ type Fetch struct {
 	Header string      // input up to the representations (whole input for FSingle)
 	Footer string
 	Level  int
+	Reasons []Reason // fields asked for because a dependant @requires them (FetchInfo.FetchReasons)
 }
 
 func (f *Fetch) DSName() string { return "s" + strconv.Itoa(f.Sub) }
@@ -170,6 +171,7 @@ func (g *Gen) object(p *Plan, t *TypeDef, cur *Fetch, sel *Sel, path []PathElem,
 			psel = pf.Sel
 		}
 		rsel.Field(r)
+		rf.addReason(t.Name, r)
 		pf.Deps = addUniq(pf.Deps, rf.ID)
 		addReq(pf, r)
 		return pf, psel
@@ -185,6 +187,22 @@ func (g *Gen) object(p *Plan, t *TypeDef, cur *Fetch, sel *Sel, path []PathElem,
 			if t.Fields[j] == t.ChainTail {
 				perm[0], perm[i] = perm[i], perm[0]
 			}
+		}
+	}
+	if g.Opt.Taint && g.R.Chance(3, 4) {
+		// ask for the fields that @require another one first
+		n := 0
+		for i, j := range perm {
+			if t.Fields[j].Requires != nil {
+				perm[n], perm[i] = perm[i], perm[n]
+				n++
+			}
+		}
+		if k < n {
+			k = n
+		}
+		if k > 4 {
+			k = 4
 		}
 	}
 	var out []*plan.Field
@@ -213,6 +231,7 @@ func (g *Gen) object(p *Plan, t *TypeDef, cur *Fetch, sel *Sel, path []PathElem,
 						continue // would close a dependency cycle: leave the field out of the query
 					}
 					rsel.Field(r)
+					rf.addReason(t.Name, r)
 					pf.Deps = addUniq(pf.Deps, rf.ID)
 					addReq(pf, r)
 				}
@@ -394,6 +413,13 @@ func (g *Gen) Plan(u *Universe) *Plan {
 		if shape == 2 && len(seq.Kids) > 2 {
 			tail := &TNode{Kind: "seq", Kids: append([]*TNode{}, seq.Kids[1:]...)}
 			seq.Kids = []*TNode{seq.Kids[0], tail}
+		}
+	}
+	if g.Opt.Taint && !p.ParSafe(seq) {
+		// a Parallel sibling would see (or not) the tainted objects depending on the schedule: run serially
+		seq = &TNode{Kind: "seq"}
+		for _, f := range order {
+			seq.Kids = append(seq.Kids, &TNode{Kind: "single", Fetch: f})
 		}
 	}
 	p.Tree = seq
